@@ -94,6 +94,17 @@ static Verdict runC(const C &c) {
     s = decompress(c.codec, comp.p, w2, out.p, n, &got);
     PBT_CHECK(vd, s == CARQUET_OK && got == n && memcmp(out.p, x.data(), n) == 0, "%s: output accepted at capacity %zu does not round-trip (status %d)", cname[c.codec], cap, s);
   }
+  // "for every byte string": the calls above, refused or not, must not change what the next call does - the same input into
+  // the advertised bound once more (codec state kept between calls shows here, inside the case that caused it)
+  {
+    Exact dst(bound), out(n);
+    size_t w3 = (size_t)-1, got = (size_t)-1;
+    int s = compress(c.codec, c.level, src.p, n, dst.p, bound, &w3);
+    PBT_CHECK(vd, s == CARQUET_OK && w3 <= bound, "%s: after calls with smaller destinations, compressing the same %zu bytes into the bound fails (status %d, %zu written)", cname[c.codec], n, s, w3);
+    Exact comp(dst.p, w3);
+    s = decompress(c.codec, comp.p, w3, out.p, n, &got);
+    PBT_CHECK(vd, s == CARQUET_OK && got == n && memcmp(out.p, x.data(), n) == 0, "%s: after calls with smaller destinations, the output for the same input no longer round-trips (status %d)", cname[c.codec], s);
+  }
   return vd;
 }
 
